@@ -55,9 +55,10 @@ which is the slot it releases, and that entity is read before anything overwrite
 the payload into the arena and delete runs the removal on exactly the index its search found, on every path on which it
 found one; no &mut to a stored entity escapes except through value_by_index_mut; is_empty is
 root == EMPTY_REF and root is written only by the constructor, the root insert, replace_parents_child, the removal and
-clear [ENTITY, POOL]; clear returns every slot and only the pool's recognised operations touch its vectors [POOL].""",
+clear [ENTITY, POOL]; clear returns every slot and only the pool's recognised operations touch its vectors [POOL]; a
+recycled slot enters the tree with empty child links, so a removed entry's subtree cannot come back [FRESH].""",
      ["C02"],
-     {'DESCENT': 3, 'NULL': 40, 'ENTITY': 5, 'POOL': 2})
+     {'DESCENT': 3, 'NULL': 40, 'ENTITY': 5, 'POOL': 2, 'FRESH': 2})
 
 prop('C05', """
 Static analysis (MIR/SSA). Decided clauses: lookup, the lookup inside delete, and the insert descent of SetTree
@@ -66,17 +67,19 @@ delete reaches the removal only under 'found' and no link is dereferenced unguar
 payload write is a whole-value assignment: insertion stores its argument into the fresh slot, the removal overwrites
 the removed slot with the whole value of exactly one other slot, which is the slot it releases, so payloads are never
 mixed between keys [ENTITY, POOL]; is_empty is root == EMPTY_REF with a closed set of root writers [ENTITY]; clear
-returns every slot and only the pool's recognised operations touch its vectors [POOL].""",
+returns every slot and only the pool's recognised operations touch its vectors [POOL]; a recycled slot enters the tree
+with empty child links, so a removed value's subtree cannot come back [FRESH].""",
      ["C02"],
-     {'DESCENT': 3, 'NULL': 40, 'ENTITY': 5, 'POOL': 2})
+     {'DESCENT': 3, 'NULL': 40, 'ENTITY': 5, 'POOL': 2, 'FRESH': 2})
 
 prop('C06', """
 Static analysis (MIR/SSA). Decided clause (complete for the loop, given the search-tree invariant): the exact-lookup
 descent of KeyExpTree continues right when stored<probe, left when stored>probe, returns the current value on
 equality, starts at the (gated) root and returns None at an empty link [DESCENT]; liveness is expiration > time at
-every test [LIVE]; only gated nodes are compared or returned [GATE].""",
+every test [LIVE]; only gated nodes are compared or returned [GATE]; a recycled slot enters the tree with empty child
+links, so the lookup cannot wander into a removed entry's former subtree [FRESH].""",
      ["C02"],
-     {'DESCENT': 2, 'LIVE': 4, 'GATE': 7})
+     {'DESCENT': 2, 'LIVE': 4, 'GATE': 7, 'FRESH': 2})
 
 prop('C07', """
 Static analysis (MIR/SSA). Decided clauses: the export emits a node's value only on the keep side of the liveness
@@ -208,10 +211,12 @@ exactly the non-empty children of the slots released in the previous pass (count
 passes end when a pass released nothing; or one cursor over the tail of the free list), and the release function leaves the
 links of a released slot intact, which that scan relies on [POOL]; no
 computed slot number ever reaches the removal or an accessor [PROVENANCE]; no index is used after the removal that
-may have freed it [STALE]. Not decided: the storage bound itself (a stated consequence of grow-only-when-empty, by at
+may have freed it [STALE]; outside the constructor and clear, every path through a store that cuts a node off the tree
+(`root = EMPTY_REF`, `node(p).left|right = EMPTY_REF`) also releases a slot - in the function itself, in a helper that
+releases on all its paths, or at every call site of a helper that only cuts [DROP]. Not decided: the storage bound itself (a stated consequence of grow-only-when-empty, by at
 most the current size).""",
      ["C02 (a removal's unlinking leaves the slot unreachable from the root)"],
-     {'POOL': 24, 'PROVENANCE': 150, 'STALE': 20})
+     {'POOL': 24, 'PROVENANCE': 150, 'STALE': 20, 'DROP': 21})
 
 prop('C18', """
 Static analysis (effect layering over the call graph and CFG). Decided clause: user code (key comparison, comparator
@@ -242,8 +247,10 @@ slot is linked by exactly one helper and unlinked by exactly one, the unlink pos
 NIL_INDEX is never released, rooted or stored as a parent, and the pool's vectors are mutated only by the pool's own
 functions, so the slot reserved at construction is never handed out [NILSTATE, POOL]; a freshly linked non-root node is
 red [COLOR]; in every upward loop that keeps a (node, parent) cursor pair the node cursor becomes the old parent, so the
-pair stays a child/parent pair [CLIMB]. NOT decided: that the consistent, symmetric algorithm restores
+pair stays a child/parent pair [CLIMB]; a slot taken from the pool enters the tree as a leaf: both child links are set to
+EMPTY_REF and the parent link written on every path of the allocating function, or (release-side discipline) the pool's
+filler node has EMPTY_REF there and every release of a slot is preceded by a reset of that link [FRESH]. NOT decided: that the consistent, symmetric algorithm restores
 the colour invariants (needs a proof or exploration of tree shapes: another technique family); a change made
 identically in all copies and both mirrors is invisible to TWIN; the height bound is a consequence and assumed.""",
      ["the shared algorithm is the textbook red-black repair (not re-verified)"],
-     {'TWIN': 50, 'LINKPAIR': 30, 'NILSTATE': 3, 'COLOR': 3, 'POOL': 3, 'CLIMB': 2})
+     {'TWIN': 50, 'LINKPAIR': 30, 'NILSTATE': 3, 'COLOR': 3, 'POOL': 3, 'CLIMB': 2, 'FRESH': 6})
